@@ -8,6 +8,7 @@
 #include "config.h"
 #include "interior_node.h"
 #include "thread_info.h"
+#include "verif_hook.h"
 
 namespace yakushima {
 
@@ -24,8 +25,10 @@ public:
     static status assign_thread_info(Token& token) {
         for (auto&& elem : thread_info_table_) {
             if (elem.gain_the_right()) {
+                YAKUSHIMA_VERIF_YIELD(Y_LOAD | Y_CAT_EPOCH, nullptr);
                 elem.set_begin_epoch(epoch_management::get_epoch());
                 token = &(elem);
+                YAKUSHIMA_VERIF_EVENT(EV_ENTER_OK, &elem, 0, 0);
                 return status::OK;
             }
         }
@@ -83,6 +86,7 @@ public:
      */
     static status leave_thread_info(Token token) {
         auto* target = static_cast<thread_info*>(token);
+        YAKUSHIMA_VERIF_EVENT(EV_LEAVE, target, 0, 0);
         target->set_begin_epoch(0);
         target->set_running(false);
         return status::OK;
